@@ -329,8 +329,62 @@ def run(ctx):
                       nontrivial=lambda c, r: True, describe=lambda c: (c[0], repr(c[2])[:300]), bucket=lambda c, r: c[0])
     ctx.extra["shipped_visitors"] = [v[0] for v in vis]
 
+    # ONE instance reused after many traversals that were ABORTED by an exception from inside a handler (a validating user handler, an unsupported function deep in
+    # the tree): it must traverse / rebuild / translate a legal tree exactly as a fresh instance does (bookkeeping on the instance must not outlive a failed traversal)
+    class _Boom(Exception):
+        pass
+    def _boom(self, n):
+        if getattr(n, "name", None) == "BOOM":
+            raise _Boom()
+        return self.generic_visit(n)
+    class _TraceB(Tracer):
+        def visit_Identifier(self, n):
+            if n.name == "BOOM":
+                raise _Boom()
+            return super().visit_Identifier(n) if hasattr(Tracer, "visit_Identifier") else self.generic_visit(n)
+    _TransB = type("_TransB", (visitor.NodeTransformer,), {"visit_Identifier": _boom})
+    deep_bad = impl.real_parse_ast("a eq 1 and (b eq 2 or not (((((c add 1) mul 2) sub BOOM) div 3) gt 4))")
+    deep_fn_bad = impl.real_parse_ast("a eq 1 and (b eq 2 or not (((((c add 1) mul 2) sub my.nosuchfn(d)) div 3) gt 4))")
+    legal = [impl.real_parse_ast(t) for t in ("name eq 'x' and (price add 2) mul 3 gt 10", "a eq 1", "not (a in (1, 2)) or contains(s, 'x')", "tags/any(t: t/name eq 'x')")]
+    from odata_query.sql import AstToSqlVisitor as _Std, AstToSqliteSqlVisitor as _Lite, AstToAthenaSqlVisitor as _Ath
+    from odata_query.roundtrip import AstToODataVisitor as _RT
+    def _outcome(fn):
+        try:
+            r = fn()
+        except RecursionError:
+            return "recursion"
+        except Exception as e:  # noqa
+            return "raise:" + type(e).__name__ + ":" + str(e)[:60]
+        return r if isinstance(r, str) else enc(r) if _dc0.is_dataclass(r) else repr(r)[:200]
+    reuse_bad = []
+    makers = [("NodeVisitor (instrumented)", lambda: _TraceB(), deep_bad, lambda inst, t: (inst.log.clear(), inst.visit(t), " ".join(inst.log))[2]),
+              ("NodeTransformer", lambda: _TransB(), deep_bad, lambda inst, t: inst.visit(t)),
+              ("AstToSqlVisitor", lambda: _Std(), deep_fn_bad, lambda inst, t: inst.visit(t)), ("AstToSqliteSqlVisitor", lambda: _Lite(), deep_fn_bad, lambda inst, t: inst.visit(t)),
+              ("AstToAthenaSqlVisitor", lambda: _Ath(), deep_fn_bad, lambda inst, t: inst.visit(t)), ("AstToODataVisitor", lambda: _RT(), deep_bad, lambda inst, t: inst.visit(t))]
+    for vname, mk, bad, use in makers:
+        inst = mk()
+        for rounds in (1, 30, 300 if not ctx.thorough else 1200):
+            for _ in range(rounds):
+                try:
+                    use(inst, bad)
+                except Exception:  # noqa
+                    pass
+            for t in legal:
+                ctx.evaluations += 1
+                got, want = _outcome(lambda: use(inst, t)), _outcome(lambda: use(mk(), t))
+                if got != want:
+                    reuse_bad.append((vname, rounds, t, got, want))
+    ctx.note(f"instances reused after aborted traversals: {len(makers)} visitor kinds x (1, 30, 300+) aborted traversals x {len(legal)} legal trees, {len(reuse_bad)} differ from a fresh instance")
+    if reuse_bad:
+        b = reuse_bad[0]
+        ctx.broken.append(f"a {b[0]} instance reused after {b[1]}+ aborted traversals handles {b[2]!r} differently from a fresh instance: {b[3][:100]} vs {b[4][:100]}"[:700])
+
     def search(ctx):
         found = []
+        for vname, rounds, t, got, want in reuse_bad[:10]:
+            found.append({"property": "C16", "visitor": vname, "aborted_traversals_before": rounds, "tree": repr(t)[:600], "reused_instance": got[:400], "fresh_instance": want[:400],
+                          "why": "an instance that has seen traversals aborted by an exception no longer reaches every node / rebuilds / translates a legal tree as a fresh instance does",
+                          "signature": "C16:reuse:" + vname})
         for nd_, kind, got, want in ord_bad[:10]:
             found.append({"property": "C16", "tree": repr(nd_)[:600], "visitor": "NodeVisitor subclass with visit_" + kind + " only", "order_met": got[:8] if isinstance(got, list) else got,
                           "depth_first_field_order": want[:8], "why": "the nodes of the handled kind are not met in depth-first field order", "signature": "C16:order:" + kind})
